@@ -74,6 +74,8 @@ def run(res, programs, tier):
             _r10_3(res, P, P.name)
         if "dashu_float" in P.units and "dashu_ratio" in P.units and P.role == "main":
             polarity.rule(res, P, P.name, "R10.4")
+            from . import halftest
+            halftest.rule(res, P, P.name, "R10.5")
 
 
 def _dispatch_for(P, mode):
